@@ -17,6 +17,7 @@ import (
 	"sort"
 	"strings"
 	"syscall"
+	"time"
 )
 
 type C26Entry struct {
@@ -131,6 +132,137 @@ func C26NewLayout(r *rand.Rand, parent string, world int) *C26Layout {
 	}
 
 	return l
+}
+
+// C26AddListing plants, for the directory-listing oracle, symlinks that are ENTRIES of one directory
+// inside the root (an existing one, possibly the root itself, or a fresh sub-directory) and lead
+// outside it: to existing files and directories (absolute / relative / through a chain of inside
+// links), to names that exist in one outside world only, plus generated hostile targets and
+// harmless controls (a regular file, a sub-directory, links that stay inside). The path ARGUMENT of a
+// listing call names the directory, which is inside; only the entries lead out. The inside of the
+// root stays identical for twin layouts (same r state). Returns the physical directory ("" when
+// the root does not exist).
+func (l *C26Layout) C26AddListing(r *rand.Rand) string {
+	if len(l.Dirs) == 0 {
+		return ""
+	}
+
+	host := l.Dirs[r.Intn(len(l.Dirs))]
+
+	if r.Intn(3) > 0 {
+		if p := filepath.Join(host, []string{"lst", "e", "dir", "f"}[r.Intn(4)]); !c26Exists(p) {
+			l.mkdir(p)
+			l.Dirs = append(l.Dirs, p)
+			host = p
+		}
+	}
+
+	rel, _ := filepath.Rel(l.PhysRoot, host)
+	depth := 0
+
+	if rel != "." {
+		depth = len(strings.Split(rel, "/"))
+	}
+
+	up := strings.Repeat("../", depth+1) // from host up to Base
+	evil := filepath.Base(l.Root) + "-evil"
+	files := []string{"outside/canary.txt", "outside/canary.json", evil + "/x", "outside/sub/kname-w0-5511", "outside/sub/more-w1"}
+	dirs := []string{"outside", "outside/sub", "cwd", evil, "."}
+	n := 0
+
+	name := func() string {
+		for {
+			n++
+
+			if p := filepath.Join(host, fmt.Sprintf("%s%d", []string{"k", "m", "z"}[r.Intn(3)], n)); !c26Exists(p) {
+				return p
+			}
+		}
+	}
+
+	spell := func(o string) string {
+		if r.Intn(2) == 0 {
+			return filepath.Join(l.Base, o)
+		}
+
+		return up + o
+	}
+
+	plant := func(target string) string {
+		p := name()
+		l.link(p, target)
+		l.Links = append(l.Links, p)
+
+		return p
+	}
+
+	// guaranteed: an existing outside file and an existing outside directory (canary.txt and the
+	// directories exist in every world), then a random mix
+	first := plant(spell(files[0]))
+	plant(spell(dirs[r.Intn(len(dirs))]))
+
+	for i, k := 0, 2+r.Intn(5); i < k; i++ {
+		switch r.Intn(6) {
+		case 0:
+			plant(spell(files[r.Intn(len(files))]))
+		case 1:
+			plant(spell(dirs[r.Intn(len(dirs))]))
+		case 2:
+			plant(filepath.Base(first)) // chain: entry -> sibling entry -> outside
+			first = plant(spell(append(files, dirs...)[r.Intn(len(files)+len(dirs))]))
+		case 3:
+			plant(l.target(r, host)) // generated hostile shapes (dangling, loops, through-and-out, ...)
+		case 4:
+			// controls: entries that stay inside
+			l.file(name(), fmt.Sprintf(`{"inside":"%d"}`, i))
+			p := name()
+			l.mkdir(p)
+			l.Dirs = append(l.Dirs, p)
+		default:
+			plant([]string{".", "..", l.PhysRoot, filepath.Base(first)}[r.Intn(4)])
+		}
+	}
+
+	return host
+}
+
+// C26MutateOutside changes the world OUTSIDE the root in place (the inside is untouched): every
+// pre-existing outside file gets another size, mode and modification time, names appear and
+// disappear, a directory becomes a file, dangling link targets come alive, directories get other
+// modes and times. A listing taken inside the root before and after must be identical.
+func (l *C26Layout) C26MutateOutside() {
+	out := filepath.Join(l.Base, "outside")
+	evil := l.Root + "-evil"
+	old := time.Unix(1_000_000_000, 0)
+
+	for _, p := range []string{filepath.Join(out, "canary.txt"), filepath.Join(evil, "x")} {
+		_ = os.WriteFile(p, []byte(C26Canary(0)+"-mutated-"+strings.Repeat("m", 333)), 0o600)
+		_ = os.Chmod(p, 0o600)
+		_ = os.Chtimes(p, old, old)
+	}
+
+	if p := filepath.Join(out, "canary.json"); c26Exists(p) {
+		_ = os.Remove(p)
+	} else {
+		_ = os.WriteFile(p, []byte(`{"secret":"`+C26Canary(0)+`-mutated"}`), 0o644)
+	}
+
+	_ = os.RemoveAll(filepath.Join(out, "sub"))
+	_ = os.WriteFile(filepath.Join(out, "sub"), []byte(C26Canary(0)+"-was-a-directory"), 0o644)
+	_ = os.WriteFile(filepath.Join(out, "newfile"), []byte(C26Canary(0)+"-new"), 0o644)
+	_ = os.Mkdir(filepath.Join(out, "nodir"), 0o755)
+	_ = os.WriteFile(filepath.Join(out, "nodir", "x"), []byte(C26Canary(0)+"-new"), 0o644)
+
+	for _, p := range []string{out, evil, filepath.Join(l.Base, "cwd")} {
+		_ = os.Chmod(p, 0o710)
+		_ = os.Chtimes(p, old, old)
+	}
+}
+
+func c26Exists(p string) bool {
+	_, err := os.Lstat(p)
+
+	return err == nil
 }
 
 func (l *C26Layout) add(k byte, p, t string) { l.Entries = append(l.Entries, C26Entry{p, k, t}) }
